@@ -305,6 +305,67 @@ fn load_batch() {
     }
 }
 
+/// builder-script <ops...> on a real dr::Builder. ops: bf | ef | bb | bbn (begin_block_no_label) | nop | ret | br | kill |
+/// param | var | undef | line | noline | cap | tvoid | tint | tptr | c32 | sf:<i> | sf:none | sb:<i> | sb:none | pop | id |
+/// ins:<begin|end|fb:N|fe:N> (insert nop at point) | lifetime
+/// After each op prints: op -> result ; sel=<f>/<b> next_id-ish module shape. A panic prints PANIC.
+fn builder_script(args: &[String]) {
+    use rspirv::dr::{Builder, InsertPoint};
+    let ops: Vec<String> = args.to_vec();
+    let r = std::panic::catch_unwind(move || {
+        let mut b = Builder::new();
+        for op in ops {
+            let res: String = match op.as_str() {
+                "bf" => format!("{:?}", b.begin_function(1, None, spirv::FunctionControl::NONE, 2).map_err(|e| format!("{:?}", e))),
+                "ef" => format!("{:?}", b.end_function().map_err(|e| format!("{:?}", e))),
+                "bb" => format!("{:?}", b.begin_block(None).map_err(|e| format!("{:?}", e))),
+                "bbn" => format!("{:?}", b.begin_block_no_label(None).map_err(|e| format!("{:?}", e))),
+                "nop" => format!("{:?}", b.nop().map_err(|e| format!("{:?}", e))),
+                "ret" => format!("{:?}", b.ret().map_err(|e| format!("{:?}", e))),
+                "br" => format!("{:?}", b.branch(7).map_err(|e| format!("{:?}", e))),
+                "kill" => format!("{:?}", b.kill().map_err(|e| format!("{:?}", e))),
+                "lifetime" => format!("{:?}", b.lifetime_start(7, 4).map_err(|e| format!("{:?}", e))),
+                "param" => format!("{:?}", b.function_parameter(1).map_err(|e| format!("{:?}", e))),
+                "var" => format!("{}", b.variable(1, None, spirv::StorageClass::Function, None)),
+                "undef" => format!("{}", b.undef(1, None)),
+                "line" => { b.line(1, 2, 3); "()".into() }
+                "noline" => { b.no_line(); "()".into() }
+                "cap" => { b.capability(spirv::Capability::Shader); "()".into() }
+                "tvoid" => format!("{}", b.type_void()),
+                "tint" => format!("{}", b.type_int(32, 0)),
+                "tptr" => format!("{}", b.type_pointer(None, spirv::StorageClass::Function, 1)),
+                "c32" => format!("{}", b.constant_bit32(1, 5)),
+                "pop" => format!("{:?}", b.pop_instruction().map(|i| i.class.opname).map_err(|e| format!("{:?}", e))),
+                "id" => format!("{}", b.id()),
+                "sf:none" => format!("{:?}", b.select_function(None).map_err(|e| format!("{:?}", e))),
+                "sb:none" => format!("{:?}", b.select_block(None).map_err(|e| format!("{:?}", e))),
+                o if o.starts_with("sf:") => format!("{:?}", b.select_function(Some(o[3..].parse().unwrap())).map_err(|e| format!("{:?}", e))),
+                o if o.starts_with("sb:") => format!("{:?}", b.select_block(Some(o[3..].parse().unwrap())).map_err(|e| format!("{:?}", e))),
+                o if o.starts_with("ins:") => {
+                    let pt = match &o[4..] {
+                        "begin" => InsertPoint::Begin,
+                        "end" => InsertPoint::End,
+                        x if x.starts_with("fb:") => InsertPoint::FromBegin(x[3..].parse().unwrap()),
+                        x => InsertPoint::FromEnd(x[3..].parse().unwrap()),
+                    };
+                    format!("{:?}", b.insert_nop(pt).map_err(|e| format!("{:?}", e)))
+                }
+                _ => "?".into(),
+            };
+            let m = b.module_ref();
+            let shape: Vec<String> = m.functions.iter().map(|f| format!("{}{}p{}[{}]", f.def.is_some() as u8, f.end.is_some() as u8, f.parameters.len(),
+                f.blocks.iter().map(|bl| format!("{}:{}", bl.label.is_some() as u8, bl.instructions.len())).collect::<Vec<_>>().join(","))).collect();
+            println!("{} -> {} ; sel={:?}/{:?} tgv={} caps={} fns={}", op, res.replace(' ', ""), b.selected_function(), b.selected_block(),
+                m.types_global_values.len(), m.capabilities.len(), shape.join(";"));
+        }
+        let m = b.module();
+        println!("bound={}", m.header.as_ref().unwrap().bound);
+    });
+    if r.is_err() {
+        println!("PANIC");
+    }
+}
+
 fn main() {
     let args: Vec<String> = env::args().collect();
     match args.get(1).map(|s| s.as_str()) {
@@ -316,6 +377,16 @@ fn main() {
         Some("storage-script") => storage_script(&args[2..]),
         Some("table-dump") => table_dump(&args[2]),
         Some("load-batch") => load_batch(),
+        Some("builder-script") => builder_script(&args[2..]),
+        Some("builder-batch") => {
+            use std::io::BufRead;
+            std::panic::set_hook(Box::new(|_| {}));
+            for line in std::io::stdin().lock().lines() {
+                let ops: Vec<String> = line.unwrap().split_whitespace().map(|x| x.to_string()).collect();
+                builder_script(&ops);
+                println!("--");
+            }
+        }
         Some("lookup-scan") => lookup_scan(&args[2]),
         _ => {
             eprintln!("usage: vreplay <subcommand> ...");
